@@ -110,6 +110,8 @@ STYLES = [
     ('fork', 'fanout', 'reverse'),
     ('cell', 'chain_first', 'gates_first'),   # a 1:1 fork on the FIRST branch of a fan-out fork
     ('cell', 'chain_rev', 'io_first'),        # chain of two forks, the DOWNSTREAM fork is created first
+    ('cell', 'always', 'states_last'),        # node list: forks before cells, state elements at the very end (every deletion displaces one)
+    ('fork', 'chain', 'forks_first'),         # node list: all forks first, then the cells in creation order
 ]
 
 
@@ -154,7 +156,9 @@ def build(nl, style=STYLES[0], io_order='in_out'):
     seq = {'io_first': [mk_inputs, mk_outputs, mk_states, mk_gates],
            'gates_first': [mk_gates, mk_states, mk_inputs, mk_outputs],
            'states_first': [mk_states, mk_outputs, mk_gates, mk_inputs],
-           'reverse': [mk_outputs, mk_gates, mk_states, mk_inputs]}[order]
+           'reverse': [mk_outputs, mk_gates, mk_states, mk_inputs],
+           'states_last': [mk_inputs, mk_outputs, mk_states, mk_gates],
+           'forks_first': [mk_gates, mk_states, mk_inputs, mk_outputs]}[order]
     for f in seq: f()
     if io_order == 'in_out':
         for n in b.in_nodes + b.out_nodes: c.io_nodes.append(n)
@@ -230,7 +234,35 @@ def build(nl, style=STYLES[0], io_order='in_out'):
                 lines.append(Line(c, f2, reader_ep(rs[0])))
         else:
             for r in rs: lines.append(Line(c, f, reader_ep(r)))
+    if order in ('states_last', 'forks_first'):
+        state_kind = lambda n: 'dff' in n.kind.lower() or 'latch' in n.kind.lower()
+        rank = (lambda n: (2 if state_kind(n) else (0 if n.kind == '__fork__' else 1))) if order == 'states_last' else \
+               (lambda n: 0 if n.kind == '__fork__' else 1)
+        return renumbered(b, sorted(c.nodes, key=lambda n: (rank(n), n.index)))
     return b
+
+
+def renumbered(b, node_order):
+    """The same graph (names, kinds, pins, line order, port order) re-created through the public API with the nodes in the
+    given order. Wiring needs both end points, so a builder that creates forks on the fly can only produce node lists with the
+    forks behind the cells; this gives every other arrangement."""
+    from kyupy.circuit import Circuit, Node, Line
+    old = b.circuit
+    c = Circuit(old.name)
+    new = {}
+    for n in node_order: new[id(n)] = Node(c, n.name, n.kind)
+    for n in old.io_nodes: c.io_nodes.append(new[id(n)])
+    lmap = {}
+    for l in old.lines:
+        lmap[id(l)] = Line(c, (new[id(l.driver)], l.driver_pin), (new[id(l.reader)], l.reader_pin))
+    r = Built()
+    r.circuit = c
+    r.in_nodes = [new[id(n)] for n in b.in_nodes]
+    r.out_nodes = [new[id(n)] for n in b.out_nodes]
+    r.st_nodes = [new[id(n)] for n in b.st_nodes]
+    r.gate_nodes = [new[id(n)] for n in b.gate_nodes]
+    r.sig_lines = {sig: [lmap[id(l)] for l in ls] for sig, ls in b.sig_lines.items()}
+    return r
 
 
 def well_formed(nl):
